@@ -48,6 +48,64 @@ Proof.
   rewrite (hexN2 b Hb). reflexivity.
 Qed.
 
+
+Lemma lt8_cases : forall d, d < 8 -> d = 0 \/ d = 1 \/ d = 2 \/ d = 3 \/ d = 4 \/ d = 5 \/ d = 6 \/ d = 7.
+Proof. intros d H. lia. Qed.
+Lemma octdigit_facts : forall d, d < 8 ->
+  simple_escape (byte (octdigit d)) = None /\ (byte (octdigit d) =? 120) = false /\ (byte (octdigit d) =? 117) = false /\
+  (byte (octdigit d) =? 85) = false /\ oct_val (byte (octdigit d)) = Some d /\ inr 48 55 (byte (octdigit d)) = true /\
+  (digit_val (byte (octdigit d)) <? 8) = true.
+Proof. intros d H. destruct (lt8_cases d H) as [E|[E|[E|[E|[E|[E|[E|E]]]]]]]; subst d; vm_compute; repeat split. Qed.
+
+Lemma oct_recompose : forall b, b < 256 -> b / 64 * 64 + (b / 8) mod 8 * 8 + b mod 8 = b.
+Proof.
+  intros b H. pose proof (N.div_mod b 8). pose proof (N.div_mod (b / 8) 8).
+  assert (E : b / 8 / 8 = b / 64) by (rewrite N.div_div by lia; reflexivity). rewrite E in *. lia.
+Qed.
+
+Lemma unq_oct : forall a b r, byte a = 92 -> b < 256 ->
+  unq 0 (String a (String (octdigit (b / 64)) (String (octdigit ((b / 8) mod 8)) (String (octdigit (b mod 8)) r)))) = ocons (ascii_of_N b) (unq 0 r).
+Proof.
+  intros a b r Ha Hb.
+  assert (H1 : b / 64 < 8) by (apply N.div_lt_upper_bound; lia).
+  assert (H2 : (b / 8) mod 8 < 8) by (apply N.mod_lt; lia).
+  assert (H3 : b mod 8 < 8) by (apply N.mod_lt; lia).
+  destruct (octdigit_facts _ H1) as [S1 [X1 [U1 [V1 [O1 _]]]]].
+  destruct (octdigit_facts _ H2) as [_ [_ [_ [_ [O2 _]]]]].
+  destruct (octdigit_facts _ H3) as [_ [_ [_ [_ [O3 _]]]]].
+  cbn [unq]. rewrite Ha. change (92 =? 34) with false. change (92 =? 10) with false. change (92 =? 92) with true. cbv iota.
+  rewrite S1, X1, U1, V1, O1, O2, O3. rewrite (oct_recompose b Hb).
+  assert (L : b <=? 255 = true) by (apply N.leb_le; lia). rewrite L. reflexivity.
+Qed.
+
+Lemma hex4_recompose : forall v, v < 65536 -> ((v / 4096 * 16 + (v / 256) mod 16) * 16 + (v / 16) mod 16) * 16 + v mod 16 = v.
+Proof.
+  intros v H. pose proof (N.div_mod v 16). pose proof (N.div_mod (v / 16) 16). pose proof (N.div_mod (v / 256) 16).
+  assert (E1 : v / 16 / 16 = v / 256) by (rewrite N.div_div by lia; reflexivity).
+  assert (E2 : v / 256 / 16 = v / 4096) by (rewrite N.div_div by lia; reflexivity).
+  rewrite E1, E2 in *. lia.
+Qed.
+Lemma hexN4 : forall v, v < 65536 ->
+  hexN [hexdigit (v / 4096); hexdigit ((v / 256) mod 16); hexdigit ((v / 16) mod 16); hexdigit (v mod 16)] = Some v.
+Proof.
+  intros v H. unfold hexN. cbn [fold_left].
+  assert (H1 : v / 4096 < 16) by (apply N.div_lt_upper_bound; lia).
+  assert (H2 : (v / 256) mod 16 < 16) by (apply N.mod_lt; lia).
+  assert (H3 : (v / 16) mod 16 < 16) by (apply N.mod_lt; lia).
+  assert (H4 : v mod 16 < 16) by (apply N.mod_lt; lia).
+  rewrite (hex_val_hexdigit _ H1), (hex_val_hexdigit _ H2), (hex_val_hexdigit _ H3), (hex_val_hexdigit _ H4).
+  f_equal. rewrite <- (hex4_recompose v H) at 5. lia.
+Qed.
+
+Lemma unq_u4 : forall a u v r, byte a = 92 -> byte u = 117 -> v < 65536 -> valid_rune v = true ->
+  unq 0 (String a (String u (String (hexdigit (v / 4096)) (String (hexdigit ((v / 256) mod 16))
+        (String (hexdigit ((v / 16) mod 16)) (String (hexdigit (v mod 16)) r)))))) = oapp (utf8_encode v) (unq 0 r).
+Proof.
+  intros a u v r Ha Hu Hv Hr. cbn [unq]. rewrite Ha. change (92 =? 34) with false. change (92 =? 10) with false. change (92 =? 92) with true. cbv iota.
+  rewrite Hu. change (simple_escape 117) with (@None N). cbv iota. change (117 =? 120) with false. change (117 =? 117) with true. cbv iota.
+  rewrite (hexN4 v Hv), Hr. reflexivity.
+Qed.
+
 Lemma unq_skip : forall t rest, unq (String.length t) (t ++ rest) = oapp t (unq 0 rest).
 Proof.
   induction t as [|a t IH]; intro rest.
@@ -92,7 +150,7 @@ Proof. intros b v. unfold simple_escape. brk; intro H; inversion H; lia. Qed.
 
 Lemma qel_unq : forall e rest, qel_ok e = true -> unq 0 (qel_text e ++ rest) = oapp (qel_value e) (unq 0 rest).
 Proof.
-  intros e rest H. destruct e as [a|s|c|b]; cbn [qel_ok qel_text qel_value] in *.
+  intros e rest H. destruct e as [a|s|c|b|b|v]; cbn [qel_ok qel_text qel_value] in *.
   - apply andb_prop in H. destruct H as [H H4]. apply andb_prop in H. destruct H as [H H3]. apply andb_prop in H. destruct H as [H1 H2].
     cbn [append]. rewrite unq_plain; try assumption; try (apply negb_true_iff; assumption).
     destruct (unq 0 rest); reflexivity.
@@ -105,6 +163,9 @@ Proof.
   - destruct (simple_escape (byte c)) as [v|] eqn:E; [|discriminate H].
     cbn [append]. rewrite (unq_simple _ c _ v); [|reflexivity|exact E]. destruct (unq 0 rest); reflexivity.
   - cbn [append]. rewrite unq_hex; [|reflexivity|reflexivity|apply N.ltb_lt; exact H]. destruct (unq 0 rest); reflexivity.
+  - cbn [append]. rewrite unq_oct; [|reflexivity|apply N.ltb_lt; exact H]. destruct (unq 0 rest); reflexivity.
+  - apply andb_prop in H. destruct H as [Hr Hv]. apply N.ltb_lt in Hv.
+    cbn [append]. rewrite unq_u4; [|reflexivity|reflexivity|exact Hv|exact Hr]. reflexivity.
 Qed.
 
 Lemma oapp_app : forall p q o, oapp p (oapp q o) = oapp (p ++ q)%string o.
@@ -187,9 +248,40 @@ Proof.
   rewrite scan_SD0. reflexivity.
 Qed.
 
+
+Lemma scan_oct : forall a c1 c2 c3 r, byte a = 92 -> simple_escape (byte c1) = None -> inr 48 55 (byte c1) = true ->
+  digit_val (byte c2) <? 8 = true -> digit_val (byte c3) <? 8 = true ->
+  scan_str SS (String a (String c1 (String c2 (String c3 r)))) = tapp (String a (String c1 (String c2 (String c3 EmptyString)))) (scan_str SS r).
+Proof.
+  intros a c1 c2 c3 r Ha S1 I1 D2 D3.
+  rewrite (scan_unfold SS a). cbv zeta iota. rewrite Ha. change (92 =? 34) with false. change (92 =? 10) with false. change (92 =? 92) with true.
+  cbn [orb]. cbv iota.
+  rewrite (scan_unfold SE c1). cbv zeta iota. rewrite S1, I1.
+  rewrite (scan_unfold (SD 8 2) c2). cbv zeta iota. rewrite D2.
+  rewrite (scan_unfold (SD 8 1) c3). cbv zeta iota. rewrite D3.
+  rewrite scan_SD0. reflexivity.
+Qed.
+
+Lemma scan_u4 : forall a u h1 h2 h3 h4 r, byte a = 92 -> byte u = 117 ->
+  digit_val (byte h1) <? 16 = true -> digit_val (byte h2) <? 16 = true -> digit_val (byte h3) <? 16 = true -> digit_val (byte h4) <? 16 = true ->
+  scan_str SS (String a (String u (String h1 (String h2 (String h3 (String h4 r))))))
+  = tapp (String a (String u (String h1 (String h2 (String h3 (String h4 EmptyString)))))) (scan_str SS r).
+Proof.
+  intros a u h1 h2 h3 h4 r Ha Hu D1 D2 D3 D4.
+  rewrite (scan_unfold SS a). cbv zeta iota. rewrite Ha. change (92 =? 34) with false. change (92 =? 10) with false. change (92 =? 92) with true.
+  cbn [orb]. cbv iota.
+  rewrite (scan_unfold SE u). cbv zeta iota. rewrite Hu. change (simple_escape 117) with (@None N). cbv iota.
+  change (inr 48 55 117) with false. change (117 =? 120) with false. change (117 =? 117) with true. cbv iota.
+  rewrite (scan_unfold (SD 16 4) h1). cbv zeta iota. rewrite D1.
+  rewrite (scan_unfold (SD 16 3) h2). cbv zeta iota. rewrite D2.
+  rewrite (scan_unfold (SD 16 2) h3). cbv zeta iota. rewrite D3.
+  rewrite (scan_unfold (SD 16 1) h4). cbv zeta iota. rewrite D4.
+  rewrite scan_SD0. reflexivity.
+Qed.
+
 Lemma qel_scan : forall e rest, qel_ok e = true -> scan_str SS (qel_text e ++ rest) = tapp (qel_text e) (scan_str SS rest).
 Proof.
-  intros e rest H. destruct e as [a|s|c|b]; cbn [qel_ok qel_text] in *.
+  intros e rest H. destruct e as [a|s|c|b|b|v]; cbn [qel_ok qel_text] in *.
   - apply andb_prop in H. destruct H as [H H4]. apply andb_prop in H. destruct H as [H H3]. apply andb_prop in H. destruct H as [H1 H2].
     cbn [append]. rewrite scan_plain; try (apply negb_true_iff; assumption). reflexivity.
   - destruct s as [|a t]; [discriminate H|].
@@ -200,6 +292,20 @@ Proof.
     cbn [append]. apply (scan_simple _ c _ v); [reflexivity|exact E].
   - apply N.ltb_lt in H. cbn [append]. apply scan_hex; try reflexivity; apply digit_val_hexdigit.
     + apply N.div_lt_upper_bound; lia.
+    + apply N.mod_lt; lia.
+  - apply N.ltb_lt in H. cbn [append].
+    assert (H1 : b / 64 < 8) by (apply N.div_lt_upper_bound; lia).
+    assert (H2 : (b / 8) mod 8 < 8) by (apply N.mod_lt; lia).
+    assert (H3 : b mod 8 < 8) by (apply N.mod_lt; lia).
+    destruct (octdigit_facts _ H1) as [S1 [_ [_ [_ [_ [I1 _]]]]]].
+    destruct (octdigit_facts _ H2) as [_ [_ [_ [_ [_ [_ D2]]]]]].
+    destruct (octdigit_facts _ H3) as [_ [_ [_ [_ [_ [_ D3]]]]]].
+    apply scan_oct; try assumption; reflexivity.
+  - apply andb_prop in H. destruct H as [_ Hv]. apply N.ltb_lt in Hv. cbn [append].
+    apply scan_u4; try reflexivity; apply digit_val_hexdigit.
+    + apply N.div_lt_upper_bound; lia.
+    + apply N.mod_lt; lia.
+    + apply N.mod_lt; lia.
     + apply N.mod_lt; lia.
 Qed.
 
